@@ -1,4 +1,5 @@
 -- Root of the library: every property file (which pulls in the models it is about).
+import Resvg.Props.C01
 import Resvg.Props.C02
 import Resvg.Props.C03
 import Resvg.Props.C09
